@@ -424,9 +424,46 @@ def _raw_power(chk, src):
 def _bind(call, callee):
     """parameter name -> argument text of a call, through the callee's signature (None when it cannot be bound)."""
     params = [a.arg for a in callee.args.posonlyargs + callee.args.args]
-    if any(isinstance(a, ast.Starred) for a in call.args) or any(k.arg is None for k in call.keywords) or len(call.args) > len(params):
+    # `*name` / `**name` of a local bound exactly once (in the calling function) to a tuple / list display, resp. to dict(k=v, ...) or a
+    # dict display with string keys, is that display spliced in
+    encl = call
+    while encl is not None and not isinstance(encl, ast.FunctionDef):
+        encl = getattr(encl, '_parent', None)
+
+    def _single(name):
+        if encl is None:
+            return None
+        ds = [n for n in walk_no_nested(encl) if isinstance(n, ast.Name) and n.id == name and isinstance(n.ctx, ast.Store)]
+        vs = [n for n in walk_no_nested(encl) if isinstance(n, ast.Assign) and len(n.targets) == 1 and isinstance(n.targets[0], ast.Name) and n.targets[0].id == name]
+        return vs[0].value if len(ds) == 1 and len(vs) == 1 else None
+    args, kws = [], []
+    for a in call.args:
+        if isinstance(a, ast.Starred):
+            v = _single(a.value.id) if isinstance(a.value, ast.Name) else (a.value if isinstance(a.value, (ast.Tuple, ast.List)) else None)
+            if not isinstance(v, (ast.Tuple, ast.List)) or any(isinstance(e, ast.Starred) for e in v.elts):
+                return None
+            args += list(v.elts)
+        else:
+            args.append(a)
+    for k in call.keywords:
+        if k.arg is None:
+            v = _single(k.value.id) if isinstance(k.value, ast.Name) else None
+            if isinstance(v, ast.Call) and dotted(v.func) == 'dict' and not v.args and all(kk.arg is not None for kk in v.keywords):
+                kws += [(kk.arg, kk.value) for kk in v.keywords]
+            elif isinstance(v, ast.Dict) and all(isinstance(kk, ast.Constant) and isinstance(kk.value, str) for kk in v.keys):
+                kws += [(kk.value, vv) for kk, vv in zip(v.keys, v.values)]
+            else:
+                return None
+        else:
+            kws.append((k.arg, k.value))
+    if len(args) > len(params):
         return None
-    b = {p: unparse(a) for p, a in zip(params, call.args)}
+    b = {p: unparse(a) for p, a in zip(params, args)}
+    for karg, kval in kws:
+        if karg in b:
+            return None
+        b[karg] = unparse(kval)
+    return b
     for k in call.keywords:
         if k.arg in b:
             return None
